@@ -149,8 +149,9 @@ def run(ctx: Ctx) -> int:
         states = states[::24]
         ctx.cov["replay_note"] = "quick: every 24th (tree, classes) state translated (all model-checked)"
     elif len(states) > 120000:
-        states = states[::4]
-        ctx.cov["replay_note"] = "thorough: every 4th state translated (all model-checked)"
+        k = max(2, len(states) // 100000)
+        states = states[::k]
+        ctx.cov["replay_note"] = "thorough: every %dth state translated (all model-checked)" % k
     items = [(s["tree"], s["cls"], j % 3 == 0) for j, s in enumerate(states)]
     res = pmap(_translate_item, items)
     lines, index = [], []
